@@ -9,6 +9,8 @@ use serde_json::{Value, json};
 pub mod boundary;
 #[path = "typeerrors.rs"]
 pub mod typeerrors;
+#[path = "escapes.rs"]
+pub mod escapes;
 
 #[derive(Clone, Debug)]
 pub struct CaseFile {
@@ -754,6 +756,10 @@ pub fn generate(p: &mut Prng, seeds: &Seeds) -> Case {
             _ => cyclic_type_case(p),
         };
     }
+    // search mode after a broken obligation about literal decoding / error-span arithmetic: only that class
+    if std::env::var("C06_FOCUS").as_deref() == Ok("escapes") {
+        return escapes::random_case(p);
+    }
     match p.below(24) {
         20 => long_token_case(p),
         21 => cyclic_type_case(p),
@@ -792,6 +798,8 @@ pub fn generate(p: &mut Prng, seeds: &Seeds) -> Case {
         }
         16 => Case::single("nested<=64", nested(p)),
         17 => Case::single("seed (unchanged)", p.pick(&seeds.programs[..]).clone()),
+        // error spans computed by offset arithmetic over decoded pieces (brace escapes x escape errors x non-ASCII)
+        19 => escapes::random_case(p),
         _ => module_tree(p, seeds),
     }
 }
